@@ -418,6 +418,12 @@ func allFlows(thorough bool) []*flowDef {
 		return final{mk: post("/device_authorization", url.Values{"scope": {"openid"}, "client_assertion": {assertion()},
 			"client_assertion_type": {oidc.ClientAssertionTypeJWTAssertion}}, nil), inputs: []string{assertion()}}
 	})
+	// the client sends BOTH Basic credentials and client_id in the form: the three users of
+	// op.ClientIDFromRequest (device authorization, device poll, introspection) fall back to the
+	// unauthenticated form value when the Basic check "found no credentials"
+	add("device", "authorization-basic-and-form-id", "A", "device-codes", false, func(x *setupCtx) final {
+		return final{mk: post("/device_authorization", url.Values{"scope": {"openid email"}, "client_id": {"web"}}, basic("web"))}
+	})
 	poll := func(kase, variants, client, scope, approve, expect string, th bool) {
 		add("device", kase, variants, expect, th, func(x *setupCtx) final {
 			dc := x.device(client, scope, approve)
@@ -435,6 +441,10 @@ func allFlows(thorough bool) []*flowDef {
 	poll("poll-approved", "A", "web", "openid email", "approve", "tokens", false)
 	poll("poll-approved-offline", "A", "web", "openid offline_access", "approve", "tokens", false)
 	poll("poll-approved-jwt", "A,B", "webjwt", "openid profile", "approve", "tokens", false)
+	add("device", "poll-approved-basic-and-form-id", "A", "tokens", false, func(x *setupCtx) final {
+		dc := x.device("web", "openid email", "approve")
+		return final{mk: post("/oauth/token", url.Values{"grant_type": {grantDevice}, "device_code": {dc}, "client_id": {"web"}}, basic("web")), inputs: []string{dc}}
+	})
 	poll("poll-denied", "A", "web", "openid", "deny", "refused", true)
 	poll("poll-approved-public", "A", "pub", "openid", "approve", "tokens", true)
 
@@ -465,6 +475,10 @@ func allFlows(thorough bool) []*flowDef {
 			return final{mk: post("/oauth/introspect", f, hdr), inputs: []string{at, assertion()}}
 		})
 	}
+	add("introspect", "basic-and-form-id", "A", "active", false, func(x *setupCtx) final {
+		at := str(x.grant("web", "openid profile email"), "access_token")
+		return final{mk: post("/oauth/introspect", url.Values{"token": {at}, "client_id": {"web"}}, basic("web")), inputs: []string{at}}
+	})
 	intro("opaque", "web", false)
 	intro("jwt", "webjwt", false)
 	intro("by-assertion", "jwt", false)
